@@ -173,7 +173,39 @@ type runner struct {
 	repo string
 	mu   sync.Mutex
 
+	pool []wtext.FontConfiguration
+
 	attrCache map[string]string
+}
+
+// fonts returns the k-th font configuration of this process.  Font configurations are pooled
+// because every NEW one is retained for the life of the process by a global cache of the text
+// engine (textprocessing/pango.fontsetCaches, keyed by the fontset): ~2.5 MB per configuration,
+// which made long runs hit the memory limit.  Callers never share one configuration between two
+// renders running at the same time.
+func (rn *runner) fonts(k int) wtext.FontConfiguration {
+	rn.mu.Lock()
+	defer rn.mu.Unlock()
+	for len(rn.pool) <= k {
+		f, err := render.NewFonts(rn.repo)
+		if err != nil {
+			return nil // renderTrace then creates one itself
+		}
+		rn.pool = append(rn.pool, f)
+	}
+	return rn.pool[k]
+}
+
+// poolLocked is fonts() for callers that already hold rn.mu.
+func (rn *runner) poolLocked(k int) wtext.FontConfiguration {
+	for len(rn.pool) <= k {
+		f, err := render.NewFonts(rn.repo)
+		if err != nil {
+			return nil
+		}
+		rn.pool = append(rn.pool, f)
+	}
+	return rn.pool[k]
 }
 
 // compare judges one pair (reference render, other render) of the same document.
@@ -190,8 +222,12 @@ func (rn *runner) compare(scen string, d Doc, ref, got Trace, detail string) boo
 	if got.Crash != "" || ref.Crash != "" {
 		if got.Crash != ref.Crash {
 			// a render that crashes only sometimes is a determinism failure as well
+			key := "outcome"
+			if k := rn.attribute(d); k != "" {
+				key = k // a panic (C01's business) reached only under some iteration orders of a known site
+			}
 			rn.out.Add(res.Finding{Kind: "judge", Op: "judge:" + scen, Input: d.HTML, Impl: got.Crash, Model: ref.Crash,
-				Reason: "the same document completed in one render and did not in the other (" + detail + ")", Key: "outcome", Seed: d.Seed})
+				Reason: "the same document completed in one render and did not in the other (" + detail + ")", Key: key, Seed: d.Seed})
 			return false
 		}
 		return true
@@ -234,10 +270,12 @@ func ablateGrid(html string) string { return gridRe.ReplaceAllString(html, "disp
 
 // stable: 6 renders of the document give the same trace (anchor order aside).
 func (rn *runner) stable(html string) bool {
-	first := renderTrace(html, nil, rn.repo)
-	ok := first.Crash == ""
+	f := rn.poolLocked(3)
+	first := renderTrace(html, f, rn.repo)
+	ok := first.Crash != "timeout"
 	for i := 0; ok && i < 5; i++ {
-		ok = renderTrace(html, nil, rn.repo).Canon == first.Canon
+		t := renderTrace(html, f, rn.repo)
+		ok = t.Canon == first.Canon && t.Crash == first.Crash // the same trace, or the same panic, every time
 	}
 	return ok
 }
@@ -436,7 +474,7 @@ func ShardMain(repo string) int {
 }
 
 func allDocs(tier string, seed uint64) []Doc {
-	nDocs := 280
+	nDocs := 300
 	if tier == "thorough" {
 		nDocs = 10000
 	}
@@ -486,15 +524,18 @@ func runDocs(tier string, seed uint64, modelPath, repo string, out *res.Result, 
 	fresh.start()
 
 	// (a) + (c) in process
-	shared, err := render.NewFonts(repo)
-	if err != nil {
-		return err
-	}
+	shared := rn.fonts(1)
 	base := make([]hashes, len(docs))
 	hr := rng.New(seed ^ 0xc15)
 	var ok []int // documents that render
 	for i, d := range docs {
-		ref, rdoc := renderTraceDoc(d.HTML, nil, repo)
+		// reference: a brand-new font configuration for every 25th document (cold caches), else pooled
+		reff := rn.fonts(0)
+		if i%25 == 0 {
+			reff = nil
+			out.Hit("reference:new-font-configuration")
+		}
+		ref, rdoc := renderTraceDoc(d.HTML, reff, repo)
 		base[i] = ref.hashes()
 		if rdoc != nil && model != nil {
 			linksCorr(model, d, rdoc, out)
@@ -516,7 +557,7 @@ func runDocs(tier string, seed uint64, modelPath, repo string, out *res.Result, 
 			out.Sample(map[string]interface{}{"html": d.HTML, "pages": ref.Pages, "calls": strings.Count(ref.Raw, "\n") + 1, "trace_hash": base[i].raw})
 		}
 		// repeat with the font configuration shared by all sequential repeats (warm caches)
-		rn.compare("repeat", d, ref, renderTrace(d.HTML, shared, repo), "same process, font configuration shared with earlier renders")
+		rn.compare("repeat", d, ref, renderTrace(d.HTML, shared, repo), "same process, another font configuration with warm caches")
 		// history: a few OTHER documents in between, then again
 		for k, n := 0, hr.Range(0, 1); k < n && len(ok) > 1; k++ {
 			o := docs[ok[hr.Intn(len(ok))]]
@@ -525,7 +566,7 @@ func runDocs(tier string, seed uint64, modelPath, repo string, out *res.Result, 
 				out.Hit("history-render")
 			}
 		}
-		rn.compare("history", d, ref, renderTrace(d.HTML, nil, repo), "same process after renders of other documents, fresh font configuration")
+		rn.compare("history", d, ref, renderTrace(d.HTML, rn.fonts(2), repo), "same process after renders of other documents, another font configuration")
 	}
 
 	// (d) concurrent, each with its own font configuration
@@ -546,7 +587,7 @@ func runDocs(tier string, seed uint64, modelPath, repo string, out *res.Result, 
 			wg.Add(1)
 			go func(k, di int) {
 				defer wg.Done()
-				got[k] = renderTrace(docs[di].HTML, nil, repo)
+				got[k] = renderTrace(docs[di].HTML, rn.fonts(4+k), repo)
 			}(k, di)
 		}
 		wg.Wait()
@@ -560,7 +601,7 @@ func runDocs(tier string, seed uint64, modelPath, repo string, out *res.Result, 
 				continue
 			}
 			// re-render sequentially to have the reference text at hand
-			ref := renderTrace(docs[di].HTML, nil, repo)
+			ref := renderTrace(docs[di].HTML, rn.fonts(0), repo)
 			rn.compare("concurrent", docs[di], ref, got[k], fmt.Sprintf("rendered concurrently with %d other documents, own font configuration", n-1))
 		}
 	}
